@@ -1,5 +1,7 @@
-// Kani harnesses for cascette-formats.
-#![allow(dead_code, unused_imports, static_mut_refs)]
+// Kani harnesses for cascette-formats: C02 (parsers fail closed), C08 (record round trips),
+// C07 (formats-side integrity checks).
+#![allow(dead_code, unused_imports, static_mut_refs, unused_macros, unconditional_panic, unused_variables, unused_mut, unused_comparisons)]
+#![cfg_attr(all(kani, vreplay), feature(alloc_error_hook))]
 
 #[cfg(kani)]
 #[path = "../../common/uf.rs"]
@@ -7,3 +9,128 @@ pub mod uf;
 #[cfg(kani)]
 #[path = "../../common/stubs.rs"]
 pub mod stubs;
+
+/// Allocator spy (DESIGN §2.3).  Under the model checker `std::alloc::{alloc, alloc_zeroed,
+/// realloc}` are stubbed to `spy::{alloc, alloc_zeroed, realloc}`: they record the largest single
+/// request and forward to CBMC's `malloc`.  In native replay (cfg(vreplay): stubs inactive) a
+/// `#[global_allocator]` wrapper records the same quantity, refuses requests above 2 GiB (so a
+/// replayed "header asks for 100 GB" fails the test instead of killing the process) and turns
+/// allocation failure into a panic through the alloc-error hook.
+#[cfg(kani)]
+pub mod spy {
+    use std::alloc::Layout;
+
+    pub static mut MAX_REQ: usize = 0;
+    pub static mut N_REQ: usize = 0;
+
+    /// C02 bound: no single request above 64 * input_len + 64 KiB.
+    pub const fn limit(input_len: usize) -> usize {
+        64 * input_len + 64 * 1024
+    }
+
+    #[inline(always)]
+    pub fn note(n: usize) {
+        unsafe {
+            if n > MAX_REQ {
+                MAX_REQ = n;
+            }
+            N_REQ += 1;
+        }
+    }
+    pub fn reset() {
+        unsafe {
+            MAX_REQ = 0;
+            N_REQ = 0;
+        }
+        #[cfg(vreplay)]
+        std::alloc::set_alloc_error_hook(|l| panic!("allocation request of {} bytes refused/failed (out of proportion to input)", l.size()));
+    }
+    pub fn max_req() -> usize {
+        unsafe { MAX_REQ }
+    }
+
+    #[cfg(not(vreplay))]
+    unsafe extern "C" {
+        fn malloc(n: usize) -> *mut core::ffi::c_void;
+        fn calloc(n: usize, m: usize) -> *mut core::ffi::c_void;
+        #[link_name = "realloc"]
+        fn c_realloc(p: *mut core::ffi::c_void, n: usize) -> *mut core::ffi::c_void;
+    }
+
+    // stubs for std::alloc::{alloc, alloc_zeroed, realloc}
+    #[cfg(not(vreplay))]
+    pub unsafe fn alloc(layout: Layout) -> *mut u8 {
+        note(layout.size());
+        unsafe { malloc(layout.size()) as *mut u8 }
+    }
+    #[cfg(not(vreplay))]
+    pub unsafe fn alloc_zeroed(layout: Layout) -> *mut u8 {
+        note(layout.size());
+        unsafe { calloc(layout.size(), 1) as *mut u8 }
+    }
+    #[cfg(not(vreplay))]
+    pub unsafe fn realloc(ptr: *mut u8, _layout: Layout, new_size: usize) -> *mut u8 {
+        note(new_size);
+        unsafe { c_realloc(ptr as *mut core::ffi::c_void, new_size) as *mut u8 }
+    }
+    // native replay never calls these (stubs are inactive); keep the names resolvable
+    #[cfg(vreplay)]
+    pub unsafe fn alloc(layout: Layout) -> *mut u8 {
+        unsafe { std::alloc::alloc(layout) }
+    }
+    #[cfg(vreplay)]
+    pub unsafe fn alloc_zeroed(layout: Layout) -> *mut u8 {
+        unsafe { std::alloc::alloc_zeroed(layout) }
+    }
+    #[cfg(vreplay)]
+    pub unsafe fn realloc(ptr: *mut u8, layout: Layout, new_size: usize) -> *mut u8 {
+        unsafe { std::alloc::realloc(ptr, layout, new_size) }
+    }
+
+    #[cfg(vreplay)]
+    pub struct NativeSpy;
+    #[cfg(vreplay)]
+    const HARD_CAP: usize = 2 << 30;
+    #[cfg(vreplay)]
+    unsafe impl std::alloc::GlobalAlloc for NativeSpy {
+        unsafe fn alloc(&self, l: Layout) -> *mut u8 {
+            note(l.size());
+            if l.size() > HARD_CAP {
+                return core::ptr::null_mut();
+            }
+            unsafe { std::alloc::System.alloc(l) }
+        }
+        unsafe fn alloc_zeroed(&self, l: Layout) -> *mut u8 {
+            note(l.size());
+            if l.size() > HARD_CAP {
+                return core::ptr::null_mut();
+            }
+            unsafe { std::alloc::System.alloc_zeroed(l) }
+        }
+        unsafe fn realloc(&self, p: *mut u8, l: Layout, n: usize) -> *mut u8 {
+            note(n);
+            if n > HARD_CAP {
+                return core::ptr::null_mut();
+            }
+            unsafe { std::alloc::System.realloc(p, l, n) }
+        }
+        unsafe fn dealloc(&self, p: *mut u8, l: Layout) {
+            unsafe { std::alloc::System.dealloc(p, l) }
+        }
+    }
+    #[cfg(vreplay)]
+    #[global_allocator]
+    static GLOBAL: NativeSpy = NativeSpy;
+}
+
+#[cfg(kani)]
+mod c02_archive;
+
+#[cfg(kani)]
+mod c02_patch_index;
+#[cfg(kani)]
+mod c02_manifests;
+#[cfg(kani)]
+mod c02_blte;
+#[cfg(kani)]
+mod c02_encoding;
